@@ -92,6 +92,8 @@ class Aardvark(object):
         pass
 
     def is_ipmc_accessible(self, target):
+        self._inc_sequence_number()
+
         header = IpmbHeaderReq()
         header.netfn = 6
         header.rs_lun = 0
